@@ -15,6 +15,15 @@ func UnsupportedDSLNestingError(typeName string, relationName string) error {
 	)
 }
 
+func DirectAssignmentWithoutTypeRestrictionsError(typeName string, relationName string) error {
+	return fmt.Errorf( //nolint:goerr113
+		"the '%s' relation definition under the '%s' type is directly assignable but has no type restrictions, "+
+			"which the OpenFGA DSL syntax cannot express",
+		relationName,
+		typeName,
+	)
+}
+
 func ConditionNameDoesntMatchError(conditionName string, conditionNestedName string) error {
 	return fmt.Errorf( //nolint:goerr113
 		"the '%s' condition has a different nested condition name ('%s')",
